@@ -789,6 +789,9 @@ for _g, _h, _fn, _pr, _bd in (
     O(id=_g, props=_pr, kind='native', harness=_h, entry='main', functions=_fn, no_canary=True,
       bound='native grid under ASan/UBSan/LSan with the assertions of the CBMC harness of the same decoder: ' + _bd + ' x every truncation x every two-chunk split', timeout=1500)
 
+O(id='xer_whitespace_span', props=['C03', 'C04', 'C19'], entry='h_xer_whitespace_span', harness='harness/h_xer_ws.c', units=[SK + 'xer_decoder.c'], link=[SK + 'xer_decoder.c'],
+  include=['contracts/xer_decoder.h'], enforce=['xer_whitespace_span'], loops=True, functions=['xer_whitespace_span'], backends=['sat', 'cvc5'], min_props=15, timeout=600)
+
 for _o in OBLIGATIONS:
     if _o.get('enforce') and _o.get('kind') in ('enforce', 'width') and _o.get('tier') == 'quick' and 'C19' not in _o['props']:
         _o['props'] = _o['props'] + ['C19']
